@@ -150,23 +150,18 @@ def r2_embedding(ctx) -> None:
         r.violation("C10.R2", cr.qual, "convert_referenced_rules", "referenced rules are not rendered in order with `name or id`", cr.loc)
     # which rules are embedded, and in which order: the explicit rules list wins, the condition text is only the fallback
     rr = prog.func("sigma.correlations.SigmaCorrelationRule.resolve_rule_references")
-    stores = [n for n in walk_no_nested(rr.node) if isinstance(n, ast.Assign) and unparse(n.targets[0]) == "self.referenced_rules"]
-    if not stores:
-        raise AnalysisError(f"{rr.qual}: stores to self.referenced_rules not found")
-    for st in stores:
-        gs = atomic_guards(guards_at(prog, rr, st))
-        v = unparse(st.value)
-        loc = f"{rr.module.relpath}:{st.lineno}"
-        if v == "self.rules":
-            if ("self.rules is not None", True) in gs and not any("SigmaExtendedCorrelationCondition" in g for g, _ in gs):
-                r.ok("C10.R2", rr.qual, "referenced_rules = the explicit rules list whenever one is given (its order is the order of {referenced_rules} and of the sub-queries)", loc)
-            else:
-                r.violation("C10.R2", rr.qual, stmt_head(st), f"the explicit rules list is used only under {gs}: for an extended condition the order of first mention in the condition text replaces the order of `rules:`, so eventtype_order / the sub-query order of a temporal_ordered correlation changes", loc)
-        elif "get_referenced_rules" in v or "referenced_rule_names" in v:
-            if ("self.rules is not None", False) in gs:
-                r.ok("C10.R2", rr.qual, "rule names from the extended condition only when no rules list is given", loc)
-            else:
-                r.violation("C10.R2", rr.qual, stmt_head(st), "rule references derived from the condition text take precedence over the explicit rules list", loc)
+    from .c09 import correlation_resolution_table
+    tbl = correlation_resolution_table(ctx)["the reference list is taken from the rules list or the extended condition"]
+    with_list = [t for t in tbl if t.startswith("rules list")]
+    from_cond = [t for t in tbl if not t.startswith("rules list")]
+    if not with_list:
+        r.ok("C10.R2", rr.qual, "referenced_rules = the explicit rules list whenever one is given, in its order (its order is the order of {referenced_rules} and of the sub-queries) — interpreted, also with an extended condition that names the rules in another order", rr.loc)
+    else:
+        r.violation("C10.R2", rr.qual, f"self.referenced_rules = self.rules: {with_list[0]}", "the explicit rules list is not used whenever it is given: for an extended condition the order of first mention in the condition text replaces the order of `rules:`, so eventtype_order / the sub-query order of a temporal_ordered correlation changes (rule references derived from the condition text take precedence over the explicit rules list)", rr.loc)
+    if not from_cond:
+        r.ok("C10.R2", rr.qual, "rule names from the extended condition only when no rules list is given; none otherwise", rr.loc)
+    else:
+        r.violation("C10.R2", rr.qual, f"references without a rules list: {from_cond[0]}", "without a rules list the references are those the extended condition names (none for a plain condition)", rr.loc)
     r.floor("C10.R2", 7)
 
 
